@@ -283,6 +283,10 @@ static int print_f(void (*printchar_handler)(void *d, int c),
     ip = precision ? fp != POW(base, sign_count) ? ip : ip + 1.0L
                    : roundl(ip + fp);
     fp = fp != POW(base, sign_count) ? fp : 0.0L;
+    /* %g without '#': trailing zeros of the fraction are removed */
+    if (is_shortened && !(ops & OPS_FLAG_WITH_SPEC))
+        for (; sign_count && (FMOD(fp, base) == 0.0L); --sign_count)
+            fp /= base;
     if (with_exp && (ip >= base))
         fp = MODF((ip + fp) / base, &ip), ep += 1.0L;
 
@@ -332,7 +336,9 @@ static int print_f(void (*printchar_handler)(void *d, int c),
 
     len = (int)(end - str);
     postfix_len = (int)strlen(postfix);
-    zero_left = is_shortened ? 0 : precision - sign_count;
+    zero_left = is_shortened && !(ops & OPS_FLAG_WITH_SPEC)
+                    ? 0
+                    : precision - sign_count;
     pad_count = MAX(width - prefix_len - len - zero_left - postfix_len, 0);
 
     if (!(ops & (OPS_FLAG_ZERO_PAD | OPS_FLAG_LEFT_ALIGN)))
